@@ -23,9 +23,10 @@ THEOREMS = [
     'Pyiga.Props.C15.transpose_nonzero', 'Pyiga.Props.C15.reindex_inverse',
     'Pyiga.Props.C15.reindex_from_reordered_two_level', 'Pyiga.Props.C15.raveled_cartesian_product_refines',
     'Pyiga.Props.C15.row_spec', 'Pyiga.Props.C15.rows_spec', 'Pyiga.Props.C15.kron_partial_spec',
+    'Pyiga.Props.C15.sparsity_from_kvs',
 ]
 MODULES = ['Pyiga.Model.Index', 'Pyiga.Model.MLMatrix', 'Pyiga.Proofs.Index', 'Pyiga.Proofs.MLMatrix',
-           'Pyiga.Proofs.MLMatrix2', 'Pyiga.Proofs.MLRows', 'Pyiga.Props.C15']
+           'Pyiga.Proofs.MLMatrix2', 'Pyiga.Proofs.MLRows', 'Pyiga.Proofs.MLSparsity', 'Pyiga.Props.C15']
 
 
 def fmt_pairs(I, J):
@@ -302,6 +303,14 @@ def run(ctx):
         b = mlmatrix.compute_sparsity_ij(kv1, kv2)
         add('spars %s %s' % (plist(ms1.tolist(), lambda e: '%d %d' % tuple(e)), plist(ms2.tolist(), lambda e: '%d %d' % tuple(e))),
             fmt_pairs(b[:, 0].tolist(), b[:, 1].tolist()) if len(b) else '0', ('spars', kv1.kv.tolist(), kv1.p, kv2.kv.tolist(), kv2.p))
+        # hypothesis of theorem sparsity_from_kvs, re-checked on every table sent to the model
+        mono = (np.all(np.diff(ms1[:, 0]) >= 0) and np.all(np.diff(ms1[:, 1]) >= 0)
+                and np.all(ms1[:, 0] < ms1[:, 1]) and np.all(ms2[:, 0] < ms2[:, 1]))
+        if not mono:
+            ctx.violation('ml-monosupp', 'mesh_support_idx_all is not monotone with non-empty supports '
+                          '(hypothesis MonoSupp of theorem sparsity_from_kvs)',
+                          {'kv1': kv1.kv.tolist(), 'p1': kv1.p, 'kv2': kv2.kv.tolist(), 'p2': kv2.p,
+                           'ms1': ms1.tolist(), 'ms2': ms2.tolist()}, False)
         kv_cases.append((kv1, kv2, b))
         ctx.count('kv-pairs')
 
